@@ -36,7 +36,7 @@ Proof. unfold reconnect. repeat (first [apply c_reset | okstep]). Qed.
 Lemma c_endCap s : ok (endCap c s).
 Proof. unfold endCap. repeat (first [apply c_transition | apply c_reconnect | okstep]). Qed.
 Lemma c_tryNext s : ok (tryNextSasl c s).
-Proof. unfold tryNextSasl. repeat (first [apply c_transition | apply c_expect | apply c_endCap | okstep]). Qed.
+Proof. unfold tryNextSasl. repeat (first [apply c_transition | apply c_expect | apply c_endCap | apply c_reconnect | okstep]). Qed.
 Lemma c_maybe s : ok (maybeStartSasl c s).
 Proof. unfold maybeStartSasl. repeat (first [apply c_transition | apply c_tryNext | apply c_endCap | okstep]). Qed.
 Lemma c_upkeep s : ok (capUpkeep c s).
